@@ -301,18 +301,29 @@ func rejectsNil(f *ssa.Function, elem bool, depth int) bool {
 	for _, c := range ownCallsIn(f) {
 		call, isCall := c.(*ssa.Call)
 		h := staticCallee(c)
-		if !isCall || h == nil || !flattenable[h] || h == f {
+		if !isCall || h == nil || h == f || h.Pkg == nil || !isOrda(h.Pkg.Pkg.Path()) {
 			continue
 		}
-		takes := false
+		// either an element (or the parameter itself) is handed to a new helper that tests it, or the parameter as a
+		// whole is handed on to a function that refuses nil the same way f is asked to
+		takes, whole := false, false
 		for _, a := range call.Call.Args {
 			o := origins(throughValueOf(a))
-			if o.hasPrefix("param:") && (!elem || o["index"] || o["rangeiter"]) {
+			if !o.hasPrefix("param:") {
+				continue
+			}
+			if flattenable[h] && (!elem || o["index"] || o["rangeiter"]) {
 				takes = true
+			}
+			if !o["index"] && !o["rangeiter"] {
+				whole = true
 			}
 		}
 		ev := errResult(call)
-		if !takes || ev == nil || !rejectsNil(h, false, depth+1) {
+		if ev == nil {
+			continue
+		}
+		if !(takes && rejectsNil(h, false, depth+1)) && !(whole && rejectsNil(h, elem, depth+1)) {
 			continue
 		}
 		// the helper's error ends f with an error
